@@ -6,9 +6,9 @@ RULE = ("seeded random histories over 5 user accounts, a calling probe contract 
         "distinct_nontrivial = distinct (operation, observation) pairs of HALTed invocations")
 _base = dict(driver="drv_balance", harness="balance", shards=dict(quick=1, thorough=16), rule=RULE, facts=["consts"])
 PROPS = {
-    "C01": dict(_base, lean=["NeoFS.Props.C01"], monitors=["C01"]),
+    "C01": dict(_base, lean=["NeoFS.Props.C01"], monitors=["C01"], facts=["consts", "footprint"]),
     "C02": dict(_base, lean=["NeoFS.Props.C02"], monitors=["C02"]),
-    "C09": dict(_base, lean=["NeoFS.Props.C09"], monitors=["C09"]),
+    "C09": dict(_base, lean=["NeoFS.Props.C09"], monitors=["C09"], facts=["consts", "footprint"]),
 }
 NOTE = ("Theorems are about NeoFS/Model/Balance.lean, a branch-by-branch model of contracts/balance/contract.go. "
         "Trusted: Lean kernel; axioms propext/Classical.choice/Quot.sound only; the model-to-code tie is differential "
